@@ -25,6 +25,13 @@ Proof.
   - destruct (str_eqb a b) eqn:E; [|reflexivity]. apply str_eqb_eq in E. contradiction.
 Qed.
 
+Lemma str_eqb_sym : forall a b : list N, str_eqb a b = str_eqb b a.
+Proof.
+  intros a b. destruct (str_eqb a b) eqn:E.
+  - apply str_eqb_eq in E. subst. symmetry. apply str_eqb_refl.
+  - symmetry. apply str_eqb_neq. apply str_eqb_neq in E. congruence.
+Qed.
+
 (* ------------------------------------------------------------------------------------ *)
 (* generic list facts *)
 Lemma nth_error_seq : forall n s i, (i < n)%nat -> nth_error (seq s n) i = Some (s + i)%nat.
@@ -101,7 +108,7 @@ Proof.
   - destruct (str_eqb k' k) eqn:E; simpl.
     + apply str_eqb_eq in E. subst k'. destruct (str_eqb k q); reflexivity.
     + rewrite IH. destruct (str_eqb k' q) eqn:E2; [|reflexivity].
-      apply str_eqb_eq in E2. subst k'. rewrite E. reflexivity.
+      apply str_eqb_eq in E2. subst k'. rewrite str_eqb_sym, E. reflexivity.
 Qed.
 
 Lemma dict_get_of_rev : forall {A : Type} (l : list (list N * A)) k v,
@@ -149,7 +156,7 @@ Qed.
 
 Lemma to_json_strict : forall l, strict_json (to_json l) = true.
 Proof.
-  intro l. unfold strict_json, to_json. simpl jmeta. simpl jdata. apply andb_true_iff. split.
+  intro l. unfold strict_json, to_json. cbn [jmeta jdata]. apply andb_true_iff. split.
   - apply forallb_forall. intros [n s] Hin. apply in_map_iff in Hin. destruct Hin as [[n' s'] [E _]].
     injection E as <- <-. simpl. apply json_section_strict.
   - apply forallb_forall. intros [k col] Hin. apply in_dict_of in Hin. destruct Hin as [k' Hin].
@@ -172,7 +179,7 @@ Proof.
 Qed.
 
 Definition std_items (l : las) : list (list N * list item) :=
-  [ (s2l "Version", version l); (s2l "Well", well l); (s2l "Curves", curves l); (s2l "Parameter", params l) ].
+  [ (s2l "Version", version l); (s2l "Well", well l); (s2l "Curves", curves l); (name_params, params l) ].
 
 Lemma to_json_values : forall l,
   (forall name its, In (name, its) (std_items l) -> NoDup (map session its) ->
@@ -186,11 +193,767 @@ Proof.
   intro l. split; [|split].
   - intros name its Hin Hnd. unfold std_items in Hin. simpl in Hin.
     destruct Hin as [E|[E|[E|[E|[]]]]]; injection E as <- <-;
-      (exists (map (fun kv => (fst kv, json_of_value (snd kv))) (dictview its)); split; [reflexivity|]);
+      (eexists; split; [reflexivity|]);
       intros it Hit; apply json_dict_values; assumption.
   - reflexivity.
-  - intros Hnd c Hc. unfold to_json. simpl jdata.
+  - intros Hnd c Hc. unfold to_json. cbn [jdata].
     apply dict_get_of.
     + rewrite map_map. simpl. exact Hnd.
     + apply in_map_iff. exists c. split; [reflexivity|exact Hc].
+Qed.
+
+(* ------------------------------------------------------------------------------------ *)
+(* the data matrix *)
+Definition rect (n : nat) (cols : list (list sample)) : Prop :=
+  forall d, In d cols -> List.length d = n.
+
+Lemma same_len_rect : forall n cols, rect n cols -> same_len cols = true.
+Proof.
+  intros n [|c t] H; simpl; [reflexivity|].
+  apply forallb_forall. intros d Hd. apply Nat.eqb_eq.
+  rewrite (H d) by (right; exact Hd). rewrite (H c) by (left; reflexivity). reflexivity.
+Qed.
+
+Lemma data_rows_rect : forall n c cols, rect n (c :: cols) ->
+  data_rows (c :: cols) = Ok (map (fun i => row_at i (c :: cols)) (seq 0 n)).
+Proof.
+  intros n c cols H. unfold data_rows. rewrite (same_len_rect n) by exact H.
+  rewrite (H c) by (left; reflexivity). reflexivity.
+Qed.
+
+Lemma cell_at_some : forall i (d : list sample), (i < List.length d)%nat ->
+  exists x, nth_error d i = Some x /\ cell_at i d = [x].
+Proof.
+  intros i d Hi. unfold cell_at. destruct (nth_error d i) as [x|] eqn:E.
+  - exists x. split; reflexivity.
+  - apply nth_error_None in E. lia.
+Qed.
+
+(* row i holds, in curve order, the sample of every curve at depth step i *)
+Lemma row_at_spec : forall i cols, (forall d, In d cols -> (i < List.length d)%nat) ->
+  Forall2 (fun d x => nth_error d i = Some x) cols (row_at i cols).
+Proof.
+  intros i cols. induction cols as [|d t IH]; intro H; unfold row_at; simpl.
+  - constructor.
+  - destruct (cell_at_some i d) as [x [Hx Hc]]; [apply H; left; reflexivity|].
+    rewrite Hc. simpl. constructor; [exact Hx|]. apply IH. intros d' Hd'. apply H. right. exact Hd'.
+Qed.
+
+Lemma row_at_nth : forall i cols, (forall d, In d cols -> (i < List.length d)%nat) ->
+  forall j, nth_error (row_at i cols) j =
+            match nth_error cols j with Some d => nth_error d i | None => None end.
+Proof.
+  intros i cols. induction cols as [|d t IH]; intros H j; unfold row_at; simpl.
+  - destruct j; reflexivity.
+  - destruct (cell_at_some i d) as [x [Hx Hc]]; [apply H; left; reflexivity|].
+    rewrite Hc. simpl. destruct j as [|j]; simpl.
+    + symmetry. exact Hx.
+    + apply IH. intros d' Hd'. apply H. right. exact Hd'.
+Qed.
+
+Lemma cells_seq : forall d : list sample,
+  flat_map (fun i => cell_at i d) (seq 0 (List.length d)) = d.
+Proof.
+  induction d as [|x d IH]; simpl; [reflexivity|].
+  unfold cell_at at 1. simpl. f_equal.
+  rewrite <- seq_shift. rewrite flat_map_map. exact IH.
+Qed.
+
+(* M[:, j] of the matrix built from equally long columns is column j *)
+Lemma column_of_rows : forall n cols rows, rect n cols -> data_rows cols = Ok rows ->
+  forall j d, nth_error cols j = Some d -> column_of j rows = d.
+Proof.
+  intros n cols rows Hrect Hrows j d Hj.
+  destruct cols as [|c t]; [destruct j; discriminate|].
+  rewrite (data_rows_rect n) in Hrows by exact Hrect. injection Hrows as <-.
+  unfold column_of. rewrite flat_map_map.
+  assert (Hd : List.length d = n). { apply Hrect. eapply nth_error_In. exact Hj. }
+  transitivity (flat_map (fun i => cell_at i d) (seq 0 n)); [|rewrite <- Hd; apply cells_seq].
+  apply flat_map_ext_in. intros i Hi. apply in_seq in Hi.
+  change (cell_at i c ++ row_at i t) with (row_at i (c :: t)).
+  unfold cell_at at 1. rewrite row_at_nth.
+  - rewrite Hj. reflexivity.
+  - intros d' Hd'. rewrite (Hrect d' Hd'). lia.
+Qed.
+
+Lemma rect_map_data : forall n (cs : list item),
+  (forall c, In c cs -> List.length (data c) = n) -> rect n (map data cs).
+Proof.
+  intros n cs H d Hd. apply in_map_iff in Hd. destruct Hd as [c [<- Hc]]. apply H. exact Hc.
+Qed.
+
+(* ------------------------------------------------------------------------------------ *)
+(* to_csv *)
+Lemma forall2_map_fields : forall (str_of : fid -> list N) i (cs : list item) row,
+  Forall2 (fun d x => nth_error d i = Some x) (map data cs) row ->
+  Forall2 (fun c f => exists x, nth_error (data c) i = Some x /\ f = field_of str_of x)
+          cs (map (field_of str_of) row).
+Proof.
+  intros str_of i cs. induction cs as [|c t IH]; intros row H; simpl in H; inversion H; subst; simpl.
+  - constructor.
+  - constructor; [eexists; split; [eassumption|reflexivity]|]. apply IH. assumption.
+Qed.
+
+Lemma to_csv_rows : forall str_of l o n,
+  (forall c, In c (curves l) -> List.length (data c) = n) ->
+  exists rows,
+    to_csv str_of l o = Ok (csv_header (curves l) o ++ rows)
+    /\ List.length rows = (match curves l with [] => 0 | _ => n end)%nat
+    /\ forall i row, nth_error rows i = Some row ->
+         Forall2 (fun c f => exists x, nth_error (data c) i = Some x /\ f = field_of str_of x)
+                 (curves l) row.
+Proof.
+  intros str_of l o n Hn. unfold to_csv.
+  destruct (curves l) as [|c cs] eqn:Ecs.
+  - simpl. exists []. split; [reflexivity|]. split; [reflexivity|]. intros [|i] row H; discriminate.
+  - assert (Hrect : rect n (map data (c :: cs))) by (apply rect_map_data; exact Hn).
+    simpl map in *. rewrite (data_rows_rect n) by exact Hrect.
+    eexists. split; [reflexivity|]. split.
+    + rewrite !map_length, seq_length. reflexivity.
+    + intros i row Hrow.
+      apply nth_error_map_some in Hrow. destruct Hrow as [r [Hr ->]].
+      apply nth_error_map_some in Hr. destruct Hr as [i' [Hi' ->]].
+      assert (Hlt : (i < n)%nat).
+      { rewrite <- (seq_length n 0). apply nth_error_Some. congruence. }
+      rewrite nth_error_seq in Hi' by exact Hlt. injection Hi' as <-. simpl.
+      apply (forall2_map_fields str_of i (c :: cs)).
+      apply row_at_spec. intros d Hd. rewrite (Hrect d Hd). exact Hlt.
+Qed.
+
+(* the header rows, case by case (names / units: what was requested) *)
+Definition requested (s : sel) (dflt : list (list N)) : list (list N) :=
+  match s with SelTrue => dflt | SelFalse => [] | SelList x => x end.
+
+Lemma csv_header_spec : forall cs o,
+  let mn := requested (o_mnemonics o) (map orig cs) in
+  let un := requested (o_units o) (map unit_ cs) in
+  csv_header cs o =
+    (match mn with
+     | [] => []
+     | _ => [ match o_loc o, un with
+              | LocSquare, _ :: _ => zip_with (bracketed 91 93) mn un
+              | LocRound, _ :: _ => zip_with (bracketed 40 41) mn un
+              | _, _ => mn
+              end ]
+     end)
+    ++ (match un, o_loc o with
+        | _ :: _, LocLine => [un]
+        | _, _ => []
+        end).
+Proof.
+  intros cs o. unfold csv_header, requested.
+  destruct (o_mnemonics o), (o_units o), (o_loc o); simpl;
+    repeat match goal with |- context [nonempty ?x] => destruct x; simpl end; reflexivity.
+Qed.
+
+(* ------------------------------------------------------------------------------------ *)
+(* df *)
+Lemma mapi_from_ext : forall {A B : Type} (f : nat -> A -> B) (g : A -> B) l n,
+  (forall j x, nth_error l j = Some x -> f (n + j)%nat x = g x) -> mapi_from f n l = map g l.
+Proof.
+  intros A B f g l. induction l as [|a l IH]; intros n H; simpl; [reflexivity|].
+  rewrite <- (H 0%nat a eq_refl). rewrite Nat.add_0_r. f_equal.
+  apply IH. intros j x Hj. rewrite <- (H (S j) x Hj). f_equal. lia.
+Qed.
+
+Lemma df_view_spec : forall l n,
+  (forall c, In c (curves l) -> List.length (data c) = n) ->
+  df_view l =
+    match curves l with
+    | [] => Ok {| df_index_name := None; df_index := []; df_cols := [] |}
+    | c0 :: rest => Ok {| df_index_name := Some (session c0); df_index := data c0;
+                          df_cols := map (fun c => (session c, data c)) rest |}
+    end.
+Proof.
+  intros l n Hn. unfold df_view.
+  destruct (curves l) as [|c0 rest] eqn:Ecs; [reflexivity|].
+  assert (Hrect : rect n (map data (c0 :: rest))) by (apply rect_map_data; exact Hn).
+  destruct (data_rows (map data (c0 :: rest))) as [rows|e] eqn:Erows.
+  2:{ simpl map in *. rewrite (data_rows_rect n) in Erows by exact Hrect. discriminate. }
+  rewrite (mapi_from_ext _ (fun c => (session c, data c))).
+  - simpl. rewrite str_eqb_refl. reflexivity.
+  - intros j x Hj. simpl. f_equal.
+    apply (column_of_rows n (map data (c0 :: rest)) rows Hrect Erows).
+    apply nth_error_map_of. exact Hj.
+Qed.
+
+(* ------------------------------------------------------------------------------------ *)
+(* set_data_from_df (df ()) *)
+Section RoundTrip.
+Variable upper : list N -> list N.
+
+Lemma assign_aux_id : forall ci all its seen,
+  (forall it, In it its -> (count_cmp upper ci (useful (orig it)) all <= 1)%nat) ->
+  assign_aux upper ci all seen its = its.
+Proof.
+  intros ci all its. induction its as [|it t IH]; intros seen H; simpl; [reflexivity|].
+  assert (E : Nat.ltb 1 (count_cmp upper ci (useful (orig it)) all) = false).
+  { apply Nat.ltb_ge. apply H. left. reflexivity. }
+  rewrite E. f_equal. apply IH. intros it' Hit'. apply H. right. exact Hit'.
+Qed.
+
+Definition renamed (c : item) : item := rename (session c) (set_samples (data c) c).
+
+Lemma set_cols_df : forall rows suf j,
+  (forall k c, nth_error suf k = Some c -> column_of (j + k)%nat rows = data c) ->
+  set_cols (map session suf) rows j suf = Ok (map renamed suf).
+Proof.
+  intros rows suf. induction suf as [|c t IH]; intros j H; simpl; [reflexivity|].
+  rewrite (IH (S j)).
+  - unfold renamed at 2. rewrite <- (H 0%nat c eq_refl). rewrite Nat.add_0_r. reflexivity.
+  - intros k c' Hk. rewrite <- (H (S k) c' Hk). f_equal. lia.
+Qed.
+
+Lemma useful_nonblank : forall s, blank s = false -> useful s = s.
+Proof. intros s H. unfold useful. rewrite H. reflexivity. Qed.
+
+Definition names_ok (ci : bool) (cs : list item) : Prop :=
+  (forall c, In c cs -> blank (session c) = false) /\
+  (forall c, In c cs -> (count_cmp upper ci (session c) (map session cs) <= 1)%nat).
+
+Lemma map_useful_renamed : forall cs,
+  (forall c, In c cs -> blank (session c) = false) ->
+  map (fun it => useful (orig it)) (map renamed cs) = map session cs.
+Proof.
+  intros cs H. rewrite map_map. apply map_ext_in. intros c Hc. simpl. apply useful_nonblank. apply H. exact Hc.
+Qed.
+
+Lemma roundtrip_rows : forall l n d,
+  (0 < n)%nat ->
+  curves l <> [] ->
+  (forall c, In c (curves l) -> List.length (data c) = n) ->
+  names_ok (curves_ci l) (curves l) ->
+  df_view l = Ok d ->
+  exists l', set_data_from_df upper d l = Ok l'
+    /\ map session (curves l') = map session (curves l)
+    /\ map data (curves l') = map data (curves l)
+    /\ map orig (curves l') = map session (curves l)
+    /\ version l' = version l /\ well l' = well l /\ params l' = params l /\ other l' = other l
+    /\ extra l' = extra l /\ index_unit l' = index_unit l.
+Proof.
+  intros l n d Hn Hne Hlen [Hblank Hcount] Hdf.
+  rewrite (df_view_spec l n Hlen) in Hdf.
+  destruct (curves l) as [|c0 rest] eqn:Ecs; [contradiction|]. injection Hdf as <-.
+  unfold set_data_from_df. cbn [df_index_name df_index df_cols].
+  rewrite !map_map. cbn [fst snd].
+  change (data c0 :: map (fun x => data x) rest) with (map data (c0 :: rest)).
+  change (session c0 :: map (fun x => session x) rest) with (map session (c0 :: rest)).
+  assert (Hrect : rect n (map data (c0 :: rest))) by (apply rect_map_data; exact Hlen).
+  unfold set_data.
+  destruct (data_rows (map data (c0 :: rest))) as [rows|e] eqn:Erows.
+  2:{ simpl map in *. rewrite (data_rows_rect n) in Erows by exact Hrect. discriminate. }
+  assert (Hrows : nonempty rows = true).
+  { simpl map in Erows. rewrite (data_rows_rect n) in Erows by exact Hrect. injection Erows as <-.
+    destruct n; [lia|]. reflexivity. }
+  rewrite Hrows. rewrite Ecs. cbn [nonempty map andb].
+  change (session c0 :: map session rest) with (map session (c0 :: rest)).
+  change (data c0 :: map data rest) with (map data (c0 :: rest)).
+  rewrite !map_length. rewrite Nat.eqb_refl.
+  rewrite Nat.sub_diag. cbn [repeat]. rewrite app_nil_r.
+  rewrite (set_cols_df rows (c0 :: rest) 0).
+  2:{ intros k c Hk. simpl. apply (column_of_rows n (map data (c0 :: rest)) rows Hrect Erows).
+      apply nth_error_map_of. exact Hk. }
+  eexists. split; [reflexivity|].
+  unfold with_curves. cbn [curves version well params other extra index_unit].
+  unfold assign_suffixes. rewrite map_useful_renamed by exact Hblank.
+  rewrite assign_aux_id.
+  - repeat split.
+    + rewrite map_map. apply map_ext_in. intros c Hc. simpl. apply useful_nonblank. apply Hblank. exact Hc.
+    + rewrite map_map. reflexivity.
+    + rewrite map_map. reflexivity.
+  - intros it Hit. apply in_map_iff in Hit. destruct Hit as [c [<- Hc]]. simpl.
+    rewrite useful_nonblank by (apply Hblank; exact Hc). apply Hcount. exact Hc.
+Qed.
+
+(* no depth steps: nothing is renamed or re-assigned; names survive when the section is in the
+   state assign_duplicate_suffixes leaves it in (an invariant of SectionItems: C13) *)
+Lemma roundtrip_norows : forall l d,
+  (forall c, In c (curves l) -> List.length (data c) = 0%nat) ->
+  assign_suffixes upper (curves_ci l) (curves l) = curves l ->
+  df_view l = Ok d ->
+  exists l', set_data_from_df upper d l = Ok l' /\ curves l' = curves l.
+Proof.
+  intros l d Hlen Hinv Hdf.
+  rewrite (df_view_spec l 0%nat Hlen) in Hdf.
+  destruct (curves l) as [|c0 rest] eqn:Ecs; injection Hdf as <-.
+  - unfold set_data_from_df. cbn. rewrite Ecs. rewrite Hinv.
+    eexists. split; [reflexivity|]. reflexivity.
+  - unfold set_data_from_df. cbn [df_index_name df_index df_cols].
+    rewrite !map_map. cbn [fst snd].
+    change (data c0 :: map (fun x => data x) rest) with (map data (c0 :: rest)).
+    assert (Hrect : rect 0%nat (map data (c0 :: rest))) by (apply rect_map_data; exact Hlen).
+    unfold set_data. simpl map. rewrite (data_rows_rect 0%nat) by exact Hrect.
+    cbn [seq map nonempty andb]. rewrite Ecs. rewrite Hinv.
+    eexists. split; [reflexivity|]. reflexivity.
+Qed.
+End RoundTrip.
+
+(* ------------------------------------------------------------------------------------ *)
+(* Excel *)
+Lemma xl_get_app : forall a b r c,
+  xl_get (a ++ b) r c = match xl_get b r c with Some x => Some x | None => xl_get a r c end.
+Proof.
+  induction a as [|[[r' c'] v] a IH]; intros b r c; simpl.
+  - destruct (xl_get b r c); reflexivity.
+  - rewrite IH. destruct (xl_get b r c); reflexivity.
+Qed.
+
+Lemma xl_get_outside : forall ws r c,
+  (forall r' c' v, In (r', c', v) ws -> r' <> r \/ c' <> c) -> xl_get ws r c = None.
+Proof.
+  induction ws as [|[[r' c'] v] ws IH]; intros r c H; simpl; [reflexivity|].
+  rewrite IH by (intros r2 c2 v2 Hin; apply (H r2 c2 v2); right; exact Hin).
+  destruct (H r' c' v (or_introl eq_refl)) as [Hr|Hc].
+  - apply Nat.eqb_neq in Hr. rewrite Hr. reflexivity.
+  - apply Nat.eqb_neq in Hc. rewrite Hc. rewrite andb_false_r. reflexivity.
+Qed.
+
+Lemma item_writes_row : forall nm n it c,
+  xl_get (item_writes nm n it) n c = nth_error (item_cells nm it) c.
+Proof.
+  intros nm n it c. unfold item_writes, item_cells.
+  destruct c as [|[|[|[|[|c]]]]]; cbn; rewrite ?Nat.eqb_refl; cbn; try reflexivity.
+  destruct c; reflexivity.
+Qed.
+
+Lemma item_writes_rows : forall nm n it r' c' v, In (r', c', v) (item_writes nm n it) -> r' = n.
+Proof.
+  intros nm n it r' c' v H. unfold item_writes in H. simpl in H.
+  repeat (destruct H as [H|H]; [injection H as <- _ _; reflexivity|]). contradiction.
+Qed.
+
+Opaque item_writes.
+
+Lemma sect_writes_snd : forall nm its n, snd (sect_writes nm n its) = (n + List.length its)%nat.
+Proof.
+  intros nm its. induction its as [|it t IH]; intro n; simpl; [lia|]. rewrite IH. lia.
+Qed.
+
+Lemma sect_writes_rows : forall nm its n r' c' v,
+  In (r', c', v) (fst (sect_writes nm n its)) -> (n <= r' < n + List.length its)%nat.
+Proof.
+  intros nm its. induction its as [|it t IH]; intros n r' c' v H; simpl in H; [contradiction|].
+  apply in_app_or in H. destruct H as [H|H].
+  - apply item_writes_rows in H. subst. simpl. lia.
+  - apply IH in H. simpl. lia.
+Qed.
+
+Lemma sect_writes_none : forall nm its n r c,
+  (r < n \/ n + List.length its <= r)%nat -> xl_get (fst (sect_writes nm n its)) r c = None.
+Proof.
+  intros nm its n r c H. apply xl_get_outside. intros r' c' v Hin.
+  apply sect_writes_rows in Hin. left. lia.
+Qed.
+
+Lemma sect_writes_get : forall nm its n k it c,
+  nth_error its k = Some it ->
+  xl_get (fst (sect_writes nm n its)) (n + k) c = nth_error (item_cells nm it) c.
+Proof.
+  intros nm its. induction its as [|it0 t IH]; intros n k it c Hk; [destruct k; discriminate|].
+  simpl. rewrite xl_get_app. destruct k as [|k]; simpl in Hk.
+  - injection Hk as ->. rewrite sect_writes_none by lia. rewrite Nat.add_0_r. apply item_writes_row.
+  - replace (n + S k)%nat with (S n + k)%nat by lia. rewrite (IH (S n) k it c Hk).
+    destruct (nth_error (item_cells nm it) c) eqn:E; [reflexivity|].
+    apply xl_get_outside. intros r' c' v Hin. apply item_writes_rows in Hin. left. lia.
+Qed.
+
+Definition tagged (ss : list (list N * list item)) : list (list N * item) :=
+  flat_map (fun s => map (pair (fst s)) (snd s)) ss.
+
+Lemma sections_writes_rows : forall ss n r' c' v,
+  In (r', c', v) (sections_writes n ss) -> (n <= r' < n + List.length (tagged ss))%nat.
+Proof.
+  induction ss as [|[nm its] t IH]; intros n r' c' v H; simpl in H; [contradiction|].
+  apply in_app_or in H. unfold tagged. simpl. rewrite app_length, map_length.
+  destruct H as [H|H].
+  - apply sect_writes_rows in H. lia.
+  - apply IH in H. rewrite sect_writes_snd in H. unfold tagged in H. lia.
+Qed.
+
+Lemma sections_writes_get : forall ss n k nm it c,
+  nth_error (tagged ss) k = Some (nm, it) ->
+  xl_get (sections_writes n ss) (n + k) c = nth_error (item_cells nm it) c.
+Proof.
+  induction ss as [|[nm0 its] t IH]; intros n k nm it c Hk; [destruct k; discriminate|].
+  simpl. rewrite xl_get_app. rewrite sect_writes_snd.
+  unfold tagged in Hk. simpl in Hk.
+  destruct (Nat.ltb k (List.length its)) eqn:Elt.
+  - apply Nat.ltb_lt in Elt.
+    rewrite nth_error_app1 in Hk by (rewrite map_length; exact Elt).
+    apply nth_error_map_some in Hk. destruct Hk as [it' [Hit' E]]. injection E as -> ->.
+    rewrite (xl_get_outside (sections_writes _ t)).
+    + apply sect_writes_get. exact Hit'.
+    + intros r' c' v Hin. apply sections_writes_rows in Hin. left. lia.
+  - apply Nat.ltb_ge in Elt.
+    rewrite nth_error_app2 in Hk by (rewrite map_length; exact Elt). rewrite map_length in Hk.
+    replace (n + k)%nat with ((n + List.length its) + (k - List.length its))%nat by lia.
+    rewrite (IH _ _ nm it c Hk).
+    destruct (nth_error (item_cells nm it) c) eqn:E; [reflexivity|].
+    apply sect_writes_none. lia.
+Qed.
+
+Definition title_cells : list xcell :=
+  [ XStr (s2l "Section"); XStr (s2l "Mnemonic"); XStr (s2l "Unit"); XStr (s2l "Value"); XStr (s2l "Description") ].
+
+Definition header_items (l : las) : list (list N * item) := tagged (header_sections l).
+
+Lemma excel_header_spec : forall l,
+  (forall c, xl_get (excel_header_writes l) 0 c = nth_error title_cells c)
+  /\ (forall k nm it c, nth_error (header_items l) k = Some (nm, it) ->
+        xl_get (excel_header_writes l) (S k) c = nth_error (item_cells nm it) c)
+  /\ (forall r c, (List.length (header_items l) < r)%nat -> xl_get (excel_header_writes l) r c = None).
+Proof.
+  intro l. unfold excel_header_writes, header_items. split; [|split].
+  - intro c. rewrite xl_get_app. rewrite xl_get_outside.
+    + unfold title_writes, title_cells. destruct c as [|[|[|[|[|c]]]]]; try reflexivity.
+      destruct c; reflexivity.
+    + intros r' c' v Hin. apply sections_writes_rows in Hin. left. lia.
+  - intros k nm it c Hk. rewrite xl_get_app.
+    change (S k) with (1 + k)%nat. rewrite (sections_writes_get _ 1 k nm it c Hk).
+    destruct (nth_error (item_cells nm it) c) eqn:E; [reflexivity|].
+    apply xl_get_outside. intros r' c' v Hin. unfold title_writes in Hin. simpl in Hin.
+    repeat (destruct Hin as [Hin|Hin]; [injection Hin as <- _ _; left; lia|]). contradiction.
+  - intros r c Hr. rewrite xl_get_app. rewrite xl_get_outside.
+    + apply xl_get_outside. intros r' c' v Hin. unfold title_writes in Hin. simpl in Hin.
+      repeat (destruct Hin as [Hin|Hin]; [injection Hin as <- _ _; left; lia|]). contradiction.
+    + intros r' c' v Hin. apply sections_writes_rows in Hin. left. lia.
+Qed.
+
+(* Curves sheet *)
+Lemma col_writes_in : forall i d j r' c' v,
+  In (r', c', v) (col_writes i j d) -> c' = i /\ (j < r' <= j + List.length d)%nat.
+Proof.
+  intros i d. induction d as [|x t IH]; intros j r' c' v H; simpl in H; [contradiction|].
+  destruct H as [H|H].
+  - injection H as <- <- _. simpl. split; [reflexivity|lia].
+  - apply IH in H. simpl. destruct H as [H1 H2]. split; [exact H1|lia].
+Qed.
+
+Lemma col_writes_get : forall i d j k x,
+  nth_error d k = Some x -> xl_get (col_writes i j d) (S (j + k)) i = Some (xcell_of_sample x).
+Proof.
+  intros i d. induction d as [|x0 t IH]; intros j k x Hk; [destruct k; discriminate|].
+  simpl. destruct k as [|k]; simpl in Hk.
+  - injection Hk as ->. rewrite xl_get_outside.
+    + rewrite Nat.add_0_r, !Nat.eqb_refl. reflexivity.
+    + intros r' c' v Hin. apply col_writes_in in Hin. left. lia.
+  - replace (S (j + S k)) with (S (S j + k)) by lia. rewrite (IH (S j) k x Hk). reflexivity.
+Qed.
+
+Lemma curves_writes_in : forall cs i r' c' v,
+  In (r', c', v) (curves_writes i cs) ->
+  exists m c0, nth_error cs m = Some c0 /\ c' = (i + m)%nat /\ (r' <= List.length (data c0))%nat.
+Proof.
+  induction cs as [|c0 t IH]; intros i r' c' v H; simpl in H; [contradiction|].
+  destruct H as [H|H]; [|apply in_app_or in H; destruct H as [H|H]].
+  - injection H as <- <- _. exists 0%nat, c0. split; [reflexivity|]. split; lia.
+  - apply col_writes_in in H. destruct H as [-> H]. exists 0%nat, c0. split; [reflexivity|]. split; lia.
+  - apply IH in H. destruct H as [m [c1 [H1 [H2 H3]]]]. exists (S m), c1. split; [exact H1|]. split; [lia|exact H3].
+Qed.
+
+Lemma curves_writes_get : forall cs i m c0,
+  nth_error cs m = Some c0 ->
+  xl_get (curves_writes i cs) 0 (i + m) = Some (XStr (session c0))
+  /\ (forall k x, nth_error (data c0) k = Some x ->
+        xl_get (curves_writes i cs) (S k) (i + m) = Some (xcell_of_sample x))
+  /\ (forall r, (List.length (data c0) < r)%nat -> xl_get (curves_writes i cs) r (i + m) = None).
+Proof.
+  induction cs as [|c t IH]; intros i m c0 Hm; [destruct m; discriminate|].
+  cbn [curves_writes]. destruct m as [|m]; simpl in Hm.
+  - injection Hm as ->. rewrite Nat.add_0_r.
+    assert (Hrest : forall r, xl_get (curves_writes (S i) t) r i = None).
+    { intro r. apply xl_get_outside. intros r' c' v Hin. apply curves_writes_in in Hin.
+      destruct Hin as [m [c1 [_ [-> _]]]]. right. lia. }
+    split; [|split].
+    + rewrite xl_get_app, Hrest. cbn [xl_get]. rewrite xl_get_outside.
+      * rewrite !Nat.eqb_refl. reflexivity.
+      * intros r' c' v Hin. apply col_writes_in in Hin. left. lia.
+    + intros k x Hk. rewrite xl_get_app, Hrest. cbn [xl_get].
+      change (S k) with (S (0 + k)). rewrite (col_writes_get i (data c0) 0 k x Hk). reflexivity.
+    + intros r Hr. rewrite xl_get_app, Hrest. cbn [xl_get]. rewrite xl_get_outside.
+      * destruct r; [lia|]. reflexivity.
+      * intros r' c' v Hin. apply col_writes_in in Hin. left. lia.
+  - replace (i + S m)%nat with (S i + m)%nat by lia.
+    destruct (IH (S i) m c0 Hm) as [H0 [H1 H2]].
+    assert (Hfirst : forall r, xl_get ((0%nat, i, XStr (session c)) :: col_writes i 0 (data c)) r (S i + m) = None).
+    { intro r. apply xl_get_outside. intros r' c' v [Hin|Hin].
+      - injection Hin as _ <- _. right. lia.
+      - apply col_writes_in in Hin. right. lia. }
+    split; [|split].
+    + rewrite xl_get_app, H0. reflexivity.
+    + intros k x Hk. rewrite xl_get_app, (H1 k x Hk). reflexivity.
+    + intros r Hr. rewrite xl_get_app, (H2 r Hr). apply Hfirst.
+Qed.
+
+Lemma curves_writes_outside : forall cs i r c,
+  (c < i \/ i + List.length cs <= c)%nat -> xl_get (curves_writes i cs) r c = None.
+Proof.
+  intros cs i r c H. apply xl_get_outside. intros r' c' v Hin. apply curves_writes_in in Hin.
+  destruct Hin as [m [c1 [Hm [-> _]]]]. right.
+  assert (m < List.length cs)%nat by (apply nth_error_Some; congruence). lia.
+Qed.
+
+Lemma excel_curves_spec : forall l,
+  (forall i c0, nth_error (curves l) i = Some c0 ->
+     xl_get (excel_curve_writes l) 0 i = Some (XStr (session c0))
+     /\ (forall j x, nth_error (data c0) j = Some x ->
+           xl_get (excel_curve_writes l) (S j) i = Some (xcell_of_sample x))
+     /\ (forall r, (List.length (data c0) < r)%nat -> xl_get (excel_curve_writes l) r i = None))
+  /\ (forall r i, (List.length (curves l) <= i)%nat -> xl_get (excel_curve_writes l) r i = None).
+Proof.
+  intro l. unfold excel_curve_writes. split.
+  - intros i c0 Hi. apply (curves_writes_get (curves l) 0 i c0 Hi).
+  - intros r i Hi. apply curves_writes_outside. lia.
+Qed.
+
+(* ------------------------------------------------------------------------------------ *)
+(* index unit detection *)
+Section Units.
+Variable upper : list N -> list N.
+
+(* a listed spelling, or anything that upper-cases to the same text as a listed spelling *)
+Definition spelled (u : list N) (ps : list (list N)) : Prop :=
+  exists p, In p ps /\ (u = p \/ upper u = upper p).
+
+Lemma unit_matches_iff : forall u ps, unit_matches upper u ps = true <-> spelled u ps.
+Proof.
+  intros u ps. unfold unit_matches, spelled. rewrite orb_true_iff, !existsb_exists. split.
+  - intros [[p [Hp E]]|[p [Hp E]]]; apply str_eqb_eq in E; exists p; auto.
+  - intros [p [Hp [E|E]]]; [left|right]; exists p; (split; [exact Hp|]); apply str_eqb_eq; exact E.
+Qed.
+
+Lemma class_matched_iff : forall units ps,
+  class_matched upper units ps = true <-> exists u, In u units /\ spelled u ps.
+Proof.
+  intros units ps. unfold class_matched. rewrite existsb_exists.
+  split; intros [u [Hu H]]; exists u; (split; [exact Hu|]); apply unit_matches_iff; exact H.
+Qed.
+
+Lemma filter_single : forall {A : Type} (f : A -> bool) (l : list A) (x : A),
+  NoDup l -> In x l -> f x = true -> (forall y, In y l -> f y = true -> y = x) -> filter f l = [x].
+Proof.
+  intros A f l x. induction l as [|a l IH]; intros Hnd Hin Hfx Huniq; [contradiction|].
+  inversion Hnd as [|? ? Hnot Hnd']; subst. simpl.
+  destruct Hin as [->|Hin].
+  - rewrite Hfx. f_equal.
+    destruct (filter f l) as [|y t] eqn:E; [reflexivity|].
+    assert (Hy : In y (filter f l)) by (rewrite E; left; reflexivity).
+    apply filter_In in Hy. destruct Hy as [Hy1 Hy2].
+    assert (y = x) by (apply Huniq; [right; exact Hy1|exact Hy2]). subst. contradiction.
+  - destruct (f a) eqn:Efa.
+    + assert (a = x) by (apply Huniq; [left; reflexivity|exact Efa]). subst. contradiction.
+    + apply IH; try assumption. intros y Hy Hfy. apply Huniq; [right; exact Hy|exact Hfy].
+Qed.
+
+(* exactly one class has a matching unit: that class is the index unit *)
+Lemma detect_some : forall table units k ps,
+  NoDup table -> In (k, ps) table ->
+  (exists u, In u units /\ spelled u ps) ->
+  (forall k' ps', In (k', ps') table -> (exists u, In u units /\ spelled u ps') -> (k', ps') = (k, ps)) ->
+  detect_unit upper table units = Some k.
+Proof.
+  intros table units k ps Hnd Hin Hm Hu. unfold detect_unit, matched_classes.
+  rewrite (filter_single _ table (k, ps)); try assumption.
+  - reflexivity.
+  - apply class_matched_iff. exact Hm.
+  - intros [k' ps'] Hy Hf. apply Hu; [exact Hy|]. apply class_matched_iff. exact Hf.
+Qed.
+
+(* two classes with different keys both have a matching unit: undefined *)
+Lemma detect_conflict : forall table units k1 ps1 k2 ps2,
+  In (k1, ps1) table -> In (k2, ps2) table -> k1 <> k2 ->
+  (exists u, In u units /\ spelled u ps1) -> (exists u, In u units /\ spelled u ps2) ->
+  detect_unit upper table units = None.
+Proof.
+  intros table units k1 ps1 k2 ps2 H1 H2 Hne M1 M2. unfold detect_unit, matched_classes.
+  assert (F1 : In (k1, ps1) (filter (fun kp => class_matched upper units (snd kp)) table)).
+  { apply filter_In. split; [exact H1|]. apply class_matched_iff. exact M1. }
+  assert (F2 : In (k2, ps2) (filter (fun kp => class_matched upper units (snd kp)) table)).
+  { apply filter_In. split; [exact H2|]. apply class_matched_iff. exact M2. }
+  destruct (filter (fun kp => class_matched upper units (snd kp)) table) as [|a [|b t]]; simpl.
+  - reflexivity.
+  - destruct F1 as [F1|[]]. destruct F2 as [F2|[]]. subst a. injection F2 as E _. congruence.
+  - reflexivity.
+Qed.
+
+(* no class has a matching unit: undefined *)
+Lemma detect_none : forall table units,
+  (forall k ps, In (k, ps) table -> ~ exists u, In u units /\ spelled u ps) ->
+  detect_unit upper table units = None.
+Proof.
+  intros table units H. unfold detect_unit, matched_classes.
+  destruct (filter (fun kp => class_matched upper units (snd kp)) table) as [|[k ps] t] eqn:E; [reflexivity|].
+  exfalso. assert (Hin : In (k, ps) (filter (fun kp => class_matched upper units (snd kp)) table)) by (rewrite E; left; reflexivity).
+  apply filter_In in Hin. destruct Hin as [Hin Hf]. apply (H k ps Hin). apply class_matched_iff. exact Hf.
+Qed.
+End Units.
+
+(* facts about the DEPTH_UNITS table of today's source (re-checked whenever Gen/Tables.v changes) *)
+Definition is_ascii (s : list N) : bool := forallb (fun c => c <? 128) s.
+Definition ascii_up (s : list N) : list N := map ascii_upper s.
+Definition ascii_agree (upper : list N -> list N) : Prop :=
+  forall s, is_ascii s = true -> upper s = ascii_up s.
+
+Fixpoint nodup_keys (l : list (list N)) : bool :=
+  match l with
+  | [] => true
+  | k :: t => negb (existsb (str_eqb k) t) && nodup_keys t
+  end.
+
+Lemma nodup_keys_sound : forall l, nodup_keys l = true -> NoDup l.
+Proof.
+  induction l as [|k t IH]; intro H; [constructor|].
+  simpl in H. apply andb_true_iff in H. destruct H as [H1 H2]. constructor; [|apply IH; exact H2].
+  intro Hin. apply negb_true_iff in H1.
+  assert (existsb (str_eqb k) t = true) by (apply existsb_exists; exists k; split; [exact Hin|apply str_eqb_refl]).
+  congruence.
+Qed.
+
+Lemma depth_units_keys_nodup : NoDup (map fst depth_units).
+Proof. apply nodup_keys_sound. vm_compute. reflexivity. Qed.
+
+Lemma depth_units_nodup : NoDup depth_units.
+Proof.
+  pose proof depth_units_keys_nodup as H. revert H. generalize depth_units.
+  induction l as [|a l IH]; intro H; [constructor|].
+  simpl in H. inversion H as [|? ? Hnot Hnd]; subst. constructor; [|apply IH; exact Hnd].
+  intro Hin. apply Hnot. apply in_map. exact Hin.
+Qed.
+
+Lemma depth_units_key_inj : forall k ps ps',
+  In (k, ps) depth_units -> In (k, ps') depth_units -> ps = ps'.
+Proof.
+  pose proof depth_units_keys_nodup as H. revert H. generalize depth_units.
+  induction l as [|[k0 p0] l IH]; intros Hnd k ps ps' H1 H2; [contradiction|].
+  simpl in Hnd. inversion Hnd as [|? ? Hnot Hnd']; subst.
+  destruct H1 as [H1|H1], H2 as [H2|H2].
+  - congruence.
+  - injection H1 as -> ->. exfalso. apply Hnot. apply in_map_iff. exists (k, ps'). split; [reflexivity|exact H2].
+  - injection H2 as -> ->. exfalso. apply Hnot. apply in_map_iff. exists (k, ps). split; [reflexivity|exact H1].
+  - eapply IH; eassumption.
+Qed.
+
+(* ------------------------------------------------------------------------------------ *)
+(* depth_m / depth_ft *)
+Lemma k3048_nonzero : ~ (k3048 == 0)%Q.
+Proof. unfold k3048, Qeq. simpl. lia. Qed.
+
+Lemma depth_kind_consistent : forall k xs, k <> KUnknown ->
+  exists m f, depth_m_kind k xs = Ok m /\ depth_ft_kind k xs = Ok f
+              /\ Forall2 Qeq m (map (fun y => Qmult y k3048) f).
+Proof.
+  intros k xs Hk. destruct k; [| | |contradiction]; simpl; eexists; eexists; (split; [reflexivity|]); (split; [reflexivity|]).
+  - induction xs as [|x xs IH]; simpl; constructor; [|exact IH].
+    symmetry. rewrite Qmult_comm. apply Qmult_div_r. exact k3048_nonzero.
+  - induction xs as [|x xs IH]; simpl; constructor; [reflexivity|exact IH].
+  - induction xs as [|x xs IH]; simpl; constructor; [reflexivity|exact IH].
+Qed.
+
+Lemma iu_contains_ascii : forall upper, ascii_agree upper ->
+  forall k code, is_ascii k = true -> is_ascii code = true ->
+  iu_contains upper (Some k) code = iu_contains ascii_up (Some k) code.
+Proof.
+  intros upper H k code Hk Hc. unfold iu_contains. destruct k as [|c k]; [reflexivity|].
+  rewrite (H code Hc), (H (c :: k) Hk). reflexivity.
+Qed.
+
+Lemma unit_kind_ascii : forall upper, ascii_agree upper ->
+  forall k, is_ascii k = true -> unit_kind_of upper (Some k) = unit_kind_of ascii_up (Some k).
+Proof.
+  intros upper H k Hk. unfold unit_kind_of.
+  rewrite !(iu_contains_ascii upper H k) by (exact Hk || reflexivity). reflexivity.
+Qed.
+
+Definition kind_known (k : unit_kind) : bool := match k with KUnknown => false | _ => true end.
+
+Lemma depth_units_kinds :
+  forallb (fun kp => is_ascii (fst kp) && kind_known (unit_kind_of ascii_up (Some (fst kp)))) depth_units = true.
+Proof. vm_compute. reflexivity. Qed.
+
+Lemma depth_consistent : forall upper, ascii_agree upper ->
+  forall k ps, In (k, ps) depth_units ->
+  forall xs, exists m f,
+    depth_m upper (Some k) xs = Ok m /\ depth_ft upper (Some k) xs = Ok f
+    /\ Forall2 Qeq m (map (fun y => Qmult y k3048) f).
+Proof.
+  intros upper Hup k ps Hin xs.
+  pose proof depth_units_kinds as H. rewrite forallb_forall in H. specialize (H (k, ps) Hin).
+  simpl in H. apply andb_true_iff in H. destruct H as [Ha Hk].
+  unfold depth_m, depth_ft. rewrite (unit_kind_ascii upper Hup k Ha).
+  apply depth_kind_consistent. intro E. rewrite E in Hk. discriminate.
+Qed.
+
+(* ------------------------------------------------------------------------------------ *)
+(* the statements of Props/C18.v about the index unit, on today's table *)
+Lemma json_value_map :
+  (forall s, json_of_value (HStr s) = JStr s)
+  /\ (forall z, json_of_value (HInt z) = JInt z)
+  /\ (forall z, json_of_value (HNpInt z) = JInt z)
+  /\ (forall id, json_of_value (HFloat (Fin id)) = JNum id)
+  /\ json_of_value (HFloat FNaN) = JNull
+  /\ json_of_value HNone = JNull
+  /\ (forall id, json_of_sample (SNum (Fin id)) = JNum id)
+  /\ json_of_sample (SNum FNaN) = JNull
+  /\ (forall s, json_of_sample (SText s) = JStr s).
+Proof. repeat split; reflexivity. Qed.
+
+Lemma read_index_unit_detect : forall upper l,
+  read_index_unit upper None l = detect_unit upper depth_units (check_units upper l).
+Proof. reflexivity. Qed.
+
+Lemma units_recognised : forall upper l k ps,
+  In (k, ps) depth_units ->
+  (exists u, In u (check_units upper l) /\ spelled upper u ps) ->
+  (forall k' ps', In (k', ps') depth_units ->
+     (exists u, In u (check_units upper l) /\ spelled upper u ps') -> k' = k) ->
+  read_index_unit upper None l = Some k.
+Proof.
+  intros upper l k ps Hin Hm Hu. rewrite read_index_unit_detect.
+  apply (detect_some upper depth_units _ k ps depth_units_nodup Hin Hm).
+  intros k' ps' Hin' Hm'. assert (k' = k) by (apply (Hu k' ps'); assumption). subst k'.
+  f_equal. apply (depth_units_key_inj k); assumption.
+Qed.
+
+Lemma units_conflict : forall upper l k1 ps1 k2 ps2,
+  In (k1, ps1) depth_units -> In (k2, ps2) depth_units -> k1 <> k2 ->
+  (exists u, In u (check_units upper l) /\ spelled upper u ps1) ->
+  (exists u, In u (check_units upper l) /\ spelled upper u ps2) ->
+  read_index_unit upper None l = None.
+Proof.
+  intros upper l k1 ps1 k2 ps2 H1 H2 Hne M1 M2. rewrite read_index_unit_detect.
+  exact (detect_conflict upper depth_units _ k1 ps1 k2 ps2 H1 H2 Hne M1 M2).
+Qed.
+
+Lemma units_unrecognised : forall upper l,
+  (forall k ps, In (k, ps) depth_units -> ~ exists u, In u (check_units upper l) /\ spelled upper u ps) ->
+  read_index_unit upper None l = None.
+Proof. intros. rewrite read_index_unit_detect. apply detect_none. assumption. Qed.
+
+Lemma ascii_case_spelled : forall upper, ascii_agree upper ->
+  forall ps p u, In p ps -> is_ascii p = true -> is_ascii u = true -> ascii_up u = ascii_up p ->
+  spelled upper u ps.
+Proof.
+  intros upper H ps p u Hp Ap Au E. exists p. split; [exact Hp|]. right.
+  rewrite (H u Au), (H p Ap). exact E.
+Qed.
+
+Lemma listed_spelled : forall upper ps p, In p ps -> spelled upper p ps.
+Proof. intros upper ps p Hp. exists p. split; [exact Hp|left; reflexivity]. Qed.
+
+(* the places looked at: STRT, STOP, STEP of ~Well (first item whose session mnemonic compares
+   equal) and the first curve *)
+Lemma check_units_places : forall upper l u,
+  In u (check_units upper l) <->
+  (exists key it, In key [s2l "STRT"; s2l "STOP"; s2l "STEP"]
+                  /\ find_item upper (well_ci l) key (well l) = Some it /\ u = unit_ it)
+  \/ (exists c t, curves l = c :: t /\ u = unit_ c).
+Proof.
+  intros upper l u. unfold check_units. rewrite in_app_iff, in_flat_map. split.
+  - intros [[key [Hk Hin]]|Hin].
+    + left. destruct (find_item upper (well_ci l) key (well l)) as [it|] eqn:E; [|contradiction].
+      destruct Hin as [<-|[]]. exists key, it. auto.
+    + right. destruct (curves l) as [|c t]; [contradiction|]. destruct Hin as [<-|[]]. eauto.
+  - intros [[key [it [Hk [E ->]]]]|[c [t [E ->]]]].
+    + left. exists key. split; [exact Hk|]. rewrite E. left. reflexivity.
+    + right. rewrite E. left. reflexivity.
 Qed.
